@@ -7,6 +7,7 @@
 #include <cstdio>
 #include <cstdlib>
 #include <cstring>
+#include <memory>
 #include <string>
 #include "cbor.h"
 #include "common/harness.hpp"
@@ -110,6 +111,26 @@ static void decode_once(const uint8_t* p, size_t n, Call& c) {
   c.res = cbor_stream_decode(p, n, &kTable, &c.rec);
 }
 
+// A buffer that keeps its address from call to call and from case to case, the way a client's receive buffer does
+// (bytes appended at the end, consumed items moved out at the front).  Answers on it must equal the answers on a
+// fresh exactly-sized copy of the same bytes: anything else is state kept between calls (a cache keyed on the buffer
+// address, on the initial byte, on the previous answer ...).
+static const size_t kStableSize = 1 << 20;
+static uint8_t* g_stable = (uint8_t*)malloc(kStableSize);
+static bool same_call(const struct Call& a, const uint8_t* abase, const struct Call& b, const uint8_t* bbase) {
+  if (a.res.status != b.res.status || a.res.read != b.res.read) return false;
+  if (a.res.status == CBOR_DECODER_NEDATA && a.res.required != b.res.required) return false;
+  if (a.rec.ev.size() != b.rec.ev.size()) return false;
+  for (size_t i = 0; i < a.rec.ev.size(); i++) {
+    const Event &x = a.rec.ev[i], &y = b.rec.ev[i];
+    if (x.slot != y.slot || x.len != y.len || (x.ptr == nullptr) != (y.ptr == nullptr)) return false;
+    if (x.ptr && (x.ptr - abase) != (y.ptr - bbase)) return false;
+    bool fl = x.slot == S_FLOAT2 || x.slot == S_FLOAT4 || x.slot == S_FLOAT8;
+    if (!fl && x.arg != y.arg) return false;
+  }
+  return true;
+}
+
 // ---------------------------------------------------------------------------- C08
 static Result judge_C08(const uint8_t* d, size_t n) {
   Result r;
@@ -168,6 +189,29 @@ static Result judge_C08(const uint8_t* d, size_t n) {
   };
   if (!same(c1, c2)) return fail("the same call repeated gave a different result");
   if (!same(c1, c3)) return fail("the same call gave a different result after unrelated calls (state kept between calls)");
+  // the same bytes in a buffer whose address is reused, each time after a different call on that very buffer
+  // with the same initial byte: a truncated head, the head with an all-ones argument, one byte fewer, the last
+  // byte changed, one byte more
+  if (n >= 1 && n + 1 <= kStableSize) {
+    size_t hl = 1 + (size_t)(h.argw > 0 ? h.argw : 0);
+    for (int v = 0; v < 6; v++) {
+      size_t vn = 0;
+      memcpy(g_stable, d, n);
+      switch (v) {
+        case 0: vn = 1; break;
+        case 1: vn = hl <= n ? hl : n; for (size_t i = 1; i < vn; i++) g_stable[i] = 0xff; break;
+        case 2: vn = n - 1; break;
+        case 3: vn = n; g_stable[n - 1] ^= 0x01; break;
+        case 4: vn = n + 1; g_stable[n] = 0x00; break;
+        default: vn = n; break;   // the case itself once more (a repeated poll)
+      }
+      Call cv; decode_once(g_stable, vn, cv);
+      memcpy(g_stable, d, n);
+      Call cs; decode_once(g_stable, n, cs);
+      if (!same_call(c1, in.p, cs, g_stable))
+        return fail("the same bytes at a reused buffer address, after a different call (variant " + std::to_string(v) + ") on that buffer with the same initial byte, gave status " + std::to_string(cs.res.status) + " read " + std::to_string(cs.res.read) + " required " + std::to_string(cs.res.required) + " — not the answer given on a fresh buffer (state kept between calls)");
+    }
+  }
   // suffix independence of a FINISHED result
   if (hs == ref::H_OK) {
     size_t rd = (size_t)h.total;
@@ -221,7 +265,11 @@ static Result judge_C09(const Case& c) {
       if (hi < tok.heads.size() ? cut > tok.heads[hi].off : (tok.end == ref::H_INCOMPLETE && cut > tok.end_off)) r.nontrivial = true;
     }
   }
-  auto fail = [&](const std::string& m) { r.ok = false; r.msg = m; return r; };
+  // One client run.  stable = false: every call gets a fresh exactly-sized copy of the buffered bytes (over-reads
+  // trap).  stable = true: the client keeps one receive buffer at a fixed address and moves the unconsumed bytes to
+  // its front, as real clients do.
+  auto client = [&](bool stable, std::string& msg) -> bool {
+  auto fail = [&](const std::string& m) { msg = (stable ? "[client with one receive buffer at a fixed address] " : "") + m; return false; };
   size_t pos = 0, arrived = 0, wait_for = 0, ei = 0;
   bool errored = false, waiting = false; size_t last_required = 0;
   std::string why;
@@ -236,7 +284,10 @@ static Result judge_C09(const Case& c) {
         break;
       }
       if (buffered < wait_for) break;
-      Exact buf(d + pos, buffered);
+      std::unique_ptr<Exact> fresh;
+      struct { const uint8_t* p; size_t n; } buf;
+      if (stable) { memcpy(g_stable, d + pos, buffered); buf.p = g_stable; buf.n = buffered; }
+      else { fresh.reset(new Exact(d + pos, buffered)); buf.p = fresh->p; buf.n = buffered; }
       Call call; decode_once(buf.p, buf.n, call);
       if (call.res.status == CBOR_DECODER_FINISHED) {
         waiting = false; wait_for = 0;
@@ -279,6 +330,21 @@ static Result judge_C09(const Case& c) {
     if (tok.end == ref::H_INCOMPLETE && n > pos && !waiting) return fail("trailing incomplete item but the client is not waiting");
   }
   if (va::g.requests + va::g.frees) return fail("the streaming decoder used the allocator");
+  return true;
+  };
+  std::string msg;
+  if (!client(false, msg)) { r.ok = false; r.msg = msg; return r; }
+  if (n >= 1 && n <= kStableSize) {
+    // the receive buffer has a past: an abandoned, different item with the same initial byte (head cut short, and
+    // head complete with an all-ones argument), then this stream, then - the stream having ended where it ended -
+    // the same stream again through the same buffer
+    ref::Head h0; ref::read_head(d, n, 0, h0);
+    size_t hl = 1 + (size_t)(h0.argw > 0 ? h0.argw : 0);
+    g_stable[0] = d[0]; for (size_t i = 1; i < hl; i++) g_stable[i] = 0xff;
+    for (size_t k = 1; k <= hl; k++) { Call pre; decode_once(g_stable, k, pre); }
+    if (!client(true, msg)) { r.ok = false; r.msg = msg; return r; }
+    if (!client(true, msg)) { r.ok = false; r.msg = "[second stream through the same buffer] " + msg; return r; }
+  }
   return r;
 }
 
